@@ -7,10 +7,12 @@ import (
 	"runtime"
 	"sync"
 	"sync/atomic"
+	"time"
 	"weak"
 
 	"github.com/junioryono/godi/v4"
 	"github.com/junioryono/godi/v4/verifh/eng"
+	"github.com/junioryono/godi/v4/verifh/rt"
 )
 
 // Create-vs-close races.
@@ -36,6 +38,8 @@ type raceKey struct{}
 
 func runCreateCloseRace(c *eng.Ctx, idx int, variant int) bool {
 	rounds := c.Pick(4000, 60000)
+	rt.SetNoise(80) // godi's internal yield points perturb the schedule
+	defer rt.SetNoise(0)
 	creators := 2 + variant%3   // goroutines creating children of the parent
 	contenders := 4 + 4*(variant%2) // goroutines keeping the provider's scope bookkeeping busy
 	childCtx := []string{"nil", "bg", "value"}[variant%3]
@@ -164,4 +168,115 @@ func runCreateCloseRace(c *eng.Ctx, idx int, variant int) bool {
 	}
 	_ = prov.Close()
 	return created.Load() > 0 && refused.Load() > 0
+}
+
+// runCreateCloseSteered is the deterministic companion of the race workload (needs godi's
+// instrumentation points, build tag verif): the creator of a child scope is parked at each
+// internal point of scope.CreateScope / provider.CreateScope in turn while the parent scope (or
+// nothing, for the provider) is closed to completion; then the creator continues. Same oracle:
+// afterwards, with the provider still open, nothing of the round may be reachable.
+func runCreateCloseSteered(c *eng.Ctx, idx int) bool {
+	if !rt.YieldAvailable {
+		return false
+	}
+	points := []string{"scope.CreateScope:created", "scope.CreateScope:tracked-by-parent", "scope.CreateScope:tracked-by-provider"}
+	coll := godi.NewCollection()
+	if err := coll.AddScoped(newRaceSvc); err != nil {
+		c.R.Inconclusive(idx, "race fixture registration failed: "+err.Error())
+		return false
+	}
+	prov, err := coll.Build()
+	if err != nil {
+		c.R.Inconclusive(idx, "race fixture does not build: "+err.Error())
+		return false
+	}
+	var weaks []weak.Pointer[byte]
+	var names []string
+	track := func(sc godi.Scope, name string) {
+		if sc != nil {
+			weaks = append(weaks, weak.Make((*byte)(reflect.ValueOf(sc).UnsafePointer())))
+			names = append(names, name)
+		}
+	}
+	rounds := c.Pick(20, 200)
+	parkedTotal := 0
+	for r := 0; r < rounds; r++ {
+		for _, pt := range points {
+			for _, withCtx := range []bool{false, true} {
+				parent, err := prov.CreateScope(context.Background())
+				if err != nil || parent == nil {
+					continue
+				}
+				track(parent, "parent")
+				reached := make(chan struct{})
+				release := make(chan struct{})
+				var once sync.Once
+				var creatorG atomic.Int64
+				rt.SetRawYield(func(point string) {
+					if point == pt && rt.Goid() == creatorG.Load() {
+						once.Do(func() { close(reached); <-release })
+					}
+				})
+				var child godi.Scope
+				var cerr error
+				done := make(chan struct{})
+				go func() {
+					defer close(done)
+					creatorG.Store(rt.Goid())
+					var ctx context.Context
+					if withCtx {
+						ctx = context.WithValue(context.Background(), raceKey{}, &raceTracker{})
+					}
+					child, cerr = parent.CreateScope(ctx)
+				}()
+				parked := false
+				select {
+				case <-reached:
+					parked = true
+				case <-done:
+				case <-time.After(5 * time.Second):
+				}
+				if parked {
+					parkedTotal++
+					_ = parent.Close() // runs to completion while the creator is parked
+					close(release)
+				}
+				select {
+				case <-done:
+				case <-time.After(20 * time.Second):
+					c.R.Inconclusive(idx, "steered create-vs-close: the creator did not return")
+					rt.SetRawYield(nil)
+					return false
+				}
+				rt.SetRawYield(nil)
+				if cerr == nil && child != nil {
+					track(child, "child created while its parent was closed at "+pt)
+					_, _ = godi.Resolve[*raceSvc](child)
+					_ = child.Close()
+				}
+				_ = parent.Close()
+				child, parent = nil, nil
+			}
+		}
+	}
+	for i := 0; i < 3; i++ {
+		runtime.GC()
+	}
+	alive := map[string]int{}
+	n := 0
+	for i, w := range weaks {
+		if w.Value() != nil {
+			alive[names[i]]++
+			n++
+		}
+	}
+	c.R.Count("steered_create_vs_close_parks", int64(parkedTotal))
+	c.R.Count("weak_checked", int64(len(weaks)))
+	if n > 0 {
+		c.R.Violation(eng.Violation{Prop: "C14", Clause: "scope-retained", Sig: "C14/scope-retained:via=parent-close-while-child-creation-parked:created-by=scope.CreateScope", Case: idx, CaseID: "steered-create-vs-close",
+			Detail: fmt.Sprintf("the creator of a child scope was parked at an internal point of CreateScope while its parent was closed to completion, then continued; every scope was closed afterwards; with the provider still open and after 3 GC cycles %d of %d scopes are still reachable: %v", n, len(weaks), alive),
+			Replay: map[string]any{"workload": "steered-create-vs-close"}})
+	}
+	_ = prov.Close()
+	return parkedTotal > 0
 }
